@@ -39,7 +39,7 @@ ASSUMPTIONS = ['integer oversampling factor; finite non-zero pixel scales, focal
                'fields are 2-d with positive dimensions (every Wavefront * Pupil product); pupil no larger than the FFT grid '
                'for the comparison with propagate_dft; square pixels for that comparison',
                'input samples (Gaussian integer) x (L-th root of unity), L <= 96; comparison tolerance 1e-9*(1+max|ref|)']
-RULE = ('histories of 1..3 propagate_fft calls sharing one scratch buffer (none / exactly scratch_shape(all wavelengths) / larger / '
+RULE = ('every case is evaluated in a forked child that starts from the freshly imported library (no state leaks between cases; replays are self-contained); the same call repeated with one argument changed (oversample at a fixed wavelength, shape, scratch use); multi-field wavefronts (explicit Fields appended to Wavefront.data, segments) with tilt lists of different lengths incl. empty in every position (Plane.tilt shorter than the segments, per-field lists) - all must be refused, the untilted ones propagated; argument forms (scalar/tuple/list/array pixelscale, int/tuple/list/array shape, numpy-integer oversample) and amplitude dtypes (int, bool, float32, float64, complex); histories of 1..4 propagate_fft calls sharing one scratch buffer (none / exactly scratch_shape(all wavelengths) / larger / '
         'one short), initial scratch content random Gaussian integers; pupils 2..9 x 2..9 (Gaussian-integer amplitude with zero '
         'borders, optional OPD = k*lambda/Lp, optional two-segment mask), wavelength chosen so that the grid is 2..16 of either '
         'parity (1/alpha = N + delta, delta in {0, +-1/4, +-1/3, +-2/5, +-1/2}), oversample 1..3, shapes None / accepted / one too '
@@ -120,7 +120,66 @@ def gen_step(rng, geo, nmax, Nmax, force_tilt=None, aniso=False):
         st['shape'] = [rng.randint(1, maxs), rng.randint(1, maxs)]
     st['use_scratch'] = rng.random() < 0.9
     st['_N'] = N
+    st['_delta'] = str(delta)
+    # more fields than the pupil's own: explicit Fields appended to Wavefront.data, inside the pupil array
+    t = rng.random()
+    if t < 0.22 and st['tilt'] == 'none':
+        st['extra'] = [rnd_extra(rng, n, m) for _ in range(rng.choice([1, 1, 2]))]
+        if t < 0.10:
+            # tilt metadata on some of the fields only - in every position, lists of different lengths
+            nf = (2 if st['seg'] else 1) + len(st['extra'])
+            pat = [0] * nf
+            while not any(pat):
+                pat = [rng.choice([0, 0, 1, 2]) for _ in range(nf)]
+            if rng.random() < 0.6:
+                pat[0] = 0                      # the first field plain, a later one tilted
+                if not any(pat):
+                    pat[rng.randint(1, nf - 1)] = rng.choice([1, 2])
+            k = nf - len(st['extra'])
+            st['ftilt'] = pat[:k]
+            for e, nt in zip(st['extra'], pat[k:]):
+                e['ntilt'] = nt
+    elif t < 0.26 and st['seg'] and st['tilt'] == 'none':
+        st['ptilt'] = rng.choice([1, 1, 2, 3])   # Plane.tilt shorter / longer than the number of segments
+    # the documented argument forms and input dtypes
+    if rng.random() < 0.5:
+        st['du_form'] = rng.choice(['scalar', 'tuple', 'list', 'array'])
+    if st['shape'] is not None and rng.random() < 0.5:
+        st['shape_form'] = rng.choice(['int', 'list', 'array', 'tuple'])
+    if rng.random() < 0.2:
+        st['os_form'] = 'npint'
+    if not cplx and rng.random() < 0.35:
+        st['amp_dtype'] = rng.choice(['int', 'bool', 'float32'])
     return st
+
+
+def rnd_extra(rng, n, m):
+    h, w = rng.randint(1, n), rng.randint(1, m)
+    offr = rng.randint(h // 2 - n // 2, h // 2 - n // 2 + n - h)
+    offc = rng.randint(w // 2 - m // 2, w // 2 - m // 2 + m - w)
+    return {'data': [[[rng.randint(-3, 3) or 1, rng.randint(-2, 2)] for _ in range(w)] for _ in range(h)],
+            'off': [offr, offc], 'ntilt': 0}
+
+
+def vary_step(rng, st, geo):
+    """the same call with one argument changed (the class 'state keyed on too little')"""
+    v = {k: (([dict(e) for e in x] if k == 'extra' else x)) for k, x in st.items()}
+    os0 = st.get('os', geo['os'])
+    what = rng.choice(['os', 'os', 'shape', 'scratch', 'same'])
+    if what == 'os':
+        os1 = rng.choice([o for o in (1, 2, 3) if o != os0])
+        v['os'] = os1
+        N1 = int((st['_N'] + Fraction(st['_delta'])) * os1 / os0 + Fraction(1, 2))
+        v['_N'] = max(1, N1)
+        maxs = max(1, N1 // os1)
+        v['shape'] = None if rng.random() < 0.2 else [rng.randint(1, maxs), rng.randint(1, maxs)]
+    elif what == 'shape':
+        maxs = max(1, st['_N'] // os0)
+        v['shape'] = None if st['shape'] is not None and rng.random() < 0.4 else [rng.randint(1, maxs), rng.randint(1, maxs)]
+    elif what == 'scratch':
+        v['use_scratch'] = not st.get('use_scratch', True)
+    v.pop('shape_form', None)
+    return v
 
 
 def gen_case(rng, tier):
@@ -145,8 +204,16 @@ def gen_case(rng, tier):
             break
     else:
         steps = steps[:1]
+    if rng.random() < 0.5 and len(steps) < 4:
+        for _ in range(4):
+            v = vary_step(rng, steps[-1], geo)
+            Lv = lcm(L, v['_N'] * (6 if aniso else 1))
+            if Lv <= 96:
+                steps.append(v)
+                break
     for s in steps:
         s.pop('_N', None)
+        s.pop('_delta', None)
     t = rng.random()
     if t < 0.22:
         scratch = None
@@ -205,14 +272,58 @@ def build_wavefront(lentil, st, geo, lam, tilt=True):
         mask[1] *= nz
         if not mask[0].any() or not mask[1].any():
             mask = None
+    dt = st.get('amp_dtype')
+    if dt == 'bool':
+        amp = (amp != 0)
+    elif dt == 'int' and not np.iscomplexobj(amp):
+        amp = amp.astype(int)
+    elif dt == 'float32' and not np.iscomplexobj(amp):
+        amp = amp.astype(np.float32)
     p = lentil.Pupil(amplitude=amp, opd=opd, mask=mask, pixelscale=dx, focal_length=z)
     if kind == 'fit':
         p = p.fit_tilt()
+    if tilt and st.get('ptilt'):
+        # a tilt list on the plane itself: Plane.multiply hands tilt[n::size] to segment n
+        p.tilt = [lentil.Tilt(x=1e-3 * (i + 1), y=-2e-3) for i in range(st['ptilt'])]
     if kind == 'wavefront':
         w = lentil.Wavefront(lam, tilt=[1e-3, -2e-3])
     else:
         w = lentil.Wavefront(lam)
-    return w * p
+    w = w * p
+    # explicit Fields appended to the wavefront (another aperture's beam), each with its own tilt list
+    for e in st.get('extra') or []:
+        data = np.array([[complex(v[0], v[1]) for v in row] for row in e['data']], dtype=complex)
+        nt = e.get('ntilt', 0) if tilt else 0
+        w.data.append(lentil.field.Field(data=data, pixelscale=dx, offset=list(e['off']),
+                                         tilt=[lentil.Tilt(x=2e-3, y=1e-3 * (i + 1)) for i in range(nt)]))
+    # per-field tilt lists (lengths, possibly 0) written onto the fields the product created
+    if tilt and st.get('ftilt'):
+        for f, nt in zip(w.data, st['ftilt']):
+            for i in range(nt):
+                f.tilt.append(lentil.Tilt(x=-1e-3, y=3e-3 * (i + 1)))
+    return w
+
+
+def arg_forms(st, du, os_):
+    """the documented argument forms: scalar / tuple / list / array pixel scale, int / tuple / list / array shape"""
+    f = st.get('du_form', 'auto')
+    if du[0] != du[1] and f in ('auto', 'scalar'):
+        f = 'tuple'
+    du_arg = {'auto': du[0], 'scalar': du[0], 'tuple': (du[0], du[1]), 'list': [du[0], du[1]],
+              'array': np.array([du[0], du[1]])}[f]
+    shape = st['shape']
+    if shape is not None:
+        g = st.get('shape_form', 'tuple')
+        if g == 'int' and shape[0] == shape[1]:
+            shape = int(shape[0])
+        elif g == 'list':
+            shape = [int(shape[0]), int(shape[1])]
+        elif g == 'array':
+            shape = np.array(shape)
+        else:
+            shape = (int(shape[0]), int(shape[1]))
+    os_arg = np.int64(os_) if st.get('os_form') == 'npint' else os_
+    return du_arg, shape, os_arg
 
 
 def call(f, *a, **k):
@@ -232,10 +343,49 @@ def exactify(v, Lp):
     return None
 
 
+def _forked(fn, arg):
+    """evaluate fn(arg) in a forked child: the child starts from the freshly imported library (the parent never calls
+    into lentil before forking), so state a call leaves behind in the library cannot leak from one case into the next
+    and every failing case is a self-contained history"""
+    import os
+    import pickle
+    import traceback
+    if os.environ.get('VERIF_C09_NOFORK') == '1':
+        return fn(arg)
+    rfd, wfd = os.pipe()
+    pid = os.fork()
+    if pid == 0:
+        try:
+            os.close(rfd)
+            try:
+                data = pickle.dumps(('ok', fn(arg)))
+            except BaseException:
+                data = pickle.dumps(('err', traceback.format_exc()[-2000:]))
+            with os.fdopen(wfd, 'wb') as fh:
+                fh.write(data)
+        finally:
+            os._exit(0)
+    os.close(wfd)
+    with os.fdopen(rfd, 'rb') as fh:
+        data = fh.read()
+    os.waitpid(pid, 0)
+    if not data:
+        raise RuntimeError('the child process evaluating the case died')
+    tag, val = pickle.loads(data)
+    if tag == 'err':
+        raise RuntimeError('evaluating the case failed:\n' + val)
+    return val
+
+
 def _run(c):
     k = _key(c)
-    if k in _CACHE:
-        return _CACHE[k]
+    if k not in _CACHE:
+        C.import_lentil()
+        _CACHE[k] = _forked(_run_inner, c)
+    return _CACHE[k]
+
+
+def _run_inner(c):
     lentil = C.import_lentil()
     geo = c['geo']
     os_ = geo['os']
@@ -245,25 +395,35 @@ def _run(c):
     z = float(Fraction(geo['z']))
     iso = du[0] == du[1]
     lams = [float(Fraction(s['lam'])) for s in c['steps']]
+    oss = [s.get('os', os_) for s in c['steps']]
     info = {'steps': [], 'iso': iso}
-    # the shared scratch buffer
+    # the shared scratch buffer: scratch_shape(all wavelengths) per oversampling factor used, the largest of them
     sc = c.get('scratch')
     scratch = None
     if sc is not None:
-        adv, err = call(lentil.scratch_shape, lams, dx, du_arg, z, os_)
-        info['advertised'] = None if adv is None else [int(adv[0]), int(adv[1])]
+        adv = None
+        for o in sorted(set(oss)):
+            wl = [l for l, oo in zip(lams, oss) if oo == o]
+            a, err = call(lentil.scratch_shape, wl if len(wl) > 1 or len(set(oss)) == 1 else wl[0], dx, du_arg, z, o)
+            if a is None:
+                adv = None
+                break
+            adv = [int(a[0]), int(a[1])] if adv is None else [max(adv[0], int(a[0])), max(adv[1], int(a[1]))]
+        info['advertised'] = adv
         if adv is not None:
-            shp = [int(adv[0]), int(adv[1])]
+            shp = list(adv)
             if sc['kind'] == 'larger':
                 shp = [shp[0] + sc['pad'][0], shp[1] + sc['pad'][1]]
             elif sc['kind'] == 'small':
                 shp[sc['dim']] = max(1, shp[sc['dim']] - 1)
             scratch = garbage(sc['seed'], shp)
             info['scratch_shape'] = shp
-    for st, lam in zip(c['steps'], lams):
-        r = {}
+    for st, lam, os_ in zip(c['steps'], lams, oss):
+        r = {'os': os_}
+        du_call, shape_call, os_call = arg_forms(st, du, os_)
         w = build_wavefront(lentil, st, geo, lam)
         r['tilted'] = any(bool(f.tilt) for f in w.data)
+        r['tilts'] = [len(f.tilt) for f in w.data]
         r['wshape'] = [int(w.shape[0]), int(w.shape[1])]
         r['fields'] = [{'data': np.array(f.data), 'off': [int(f.offset[0]), int(f.offset[1])], 'ntilt': len(f.tilt)}
                        for f in w.data]
@@ -271,21 +431,24 @@ def _run(c):
         r['wpix'] = [float(w.pixelscale[0]), float(w.pixelscale[1])]
         r['wz'] = float(w.focal_length)
         r['wptype'] = 1 if w.ptype == lentil.pupil else (2 if w.ptype == lentil.image else 0)
-        # the grid the implementation uses: the full-grid call; for wavefronts it refuses, the advertised scratch shape
+        # the call under test comes first: it must not depend on what was computed before it in this history
+        use = st.get('use_scratch', True) and scratch is not None
+        r['used_scratch'] = bool(use)
+        shape = None if st['shape'] is None else tuple(st['shape'])
+        out, err = call(lentil.propagate_fft, w, du_call, shape=shape_call, oversample=os_call,
+                        scratch=scratch if use else None)
+        # the grid the implementation uses: the full-grid call (on the same wavefront without its tilt metadata);
+        # if that fails, the advertised scratch shape
         full, ferr = call(lentil.propagate_fft, build_wavefront(lentil, st, geo, lam, tilt=False), du_arg, shape=None,
                           oversample=os_)
         adv1, _ = call(lentil.scratch_shape, lam, dx, du_arg, z, os_)
         r['adv1'] = None if adv1 is None else [int(adv1[0]), int(adv1[1])]
         if full is not None:
             r['N'] = [int(full.shape[0]), int(full.shape[1])]
+            r['full_wl'] = float(full.wavelength)
         else:
             r['N'] = r['adv1']
             r['full_err'] = ferr
-        # the call under test
-        use = st.get('use_scratch', True) and scratch is not None
-        r['used_scratch'] = bool(use)
-        shape = None if st['shape'] is None else tuple(st['shape'])
-        out, err = call(lentil.propagate_fft, w, du_arg, shape=shape, oversample=os_, scratch=scratch if use else None)
         if err:
             r['err'] = err
         else:
@@ -312,7 +475,6 @@ def _run(c):
                     d, e4 = call(lentil.propagate_dft, w2, du_arg, shape=shape, oversample=os_)
                 r['dft'] = e4 if e4 else np.array(d.field)
         info['steps'].append(r)
-    _CACHE[k] = info
     return info
 
 
@@ -324,8 +486,8 @@ def run_impl(c):
     info = _run(c)
     out = {'iso': info['iso'], 'advertised': info.get('advertised'), 'scratch_shape': info.get('scratch_shape'), 'steps': []}
     for r in info['steps']:
-        d = {k: r.get(k) for k in ('tilted', 'N', 'adv1', 'used_scratch', 'err', 'shape', 'wavelength', 'pixelscale',
-                                   'ptype', 'wshape', 'full_err')}
+        d = {k: r.get(k) for k in ('tilted', 'tilts', 'os', 'N', 'adv1', 'used_scratch', 'err', 'shape', 'wavelength',
+                                   'pixelscale', 'ptype', 'wshape', 'full_err', 'full_wl')}
         for k in ('field', 'plain', 'exact', 'dft'):
             if k in r:
                 d[k] = r[k]
@@ -388,7 +550,7 @@ def encode(c):
         out += C.enc_q(r['wz']) + [r['wptype']]
         out += C.enc_q(float(Fraction(geo['du'][0]))) + C.enc_q(float(Fraction(geo['du'][1])))
         out += [0] if st['shape'] is None else [1, st['shape'][0], st['shape'][1]]
-        out += [os_, 1 if r['used_scratch'] else 0]
+        out += [st.get('os', os_), 1 if r['used_scratch'] else 0]
     return out
 
 
@@ -470,11 +632,15 @@ def oracle(c, impl):
     os_ = geo['os']
     iso = impl['iso']
     sshape = impl.get('scratch_shape')
+    os_case = geo['os']
     for k, (st, r) in enumerate(zip(c['steps'], impl['steps'])):
+        os_ = st.get('os', os_case)
         err = r.get('err')
         if r['tilted']:
             if err != 'NotImplementedError':
-                return (f'call {k}: a wavefront carrying tilt metadata ({st["tilt"]}) was not refused with '
+                return (f'call {k}: a wavefront carrying tilt metadata (lengths of the tilt lists of its fields: '
+                        f'{r.get("tilts")}; built with tilt={st.get("tilt")}, ptilt={st.get("ptilt")}, ftilt={st.get("ftilt")}, '
+                        f'extra fields {[e.get("ntilt", 0) for e in st.get("extra") or []]}) was not refused with '
                         f'NotImplementedError (got {err or "a result"})')
             continue
         N = r['N']
@@ -482,6 +648,12 @@ def oracle(c, impl):
             return f'call {k}: neither the full-grid call nor scratch_shape works ({r.get("full_err")})'
         if r.get('full_err'):
             return f'call {k}: propagate_fft(shape=None) raised {r["full_err"]}'
+        if iso and r.get('full_wl') is not None:
+            dx, du, z = float(Fraction(geo['dx'])), float(Fraction(geo['du'][0])), float(Fraction(geo['z']))
+            inv_alpha = r['full_wl'] * z * os_ / (dx * du)
+            if N[0] != N[1] or not rel_close(inv_alpha, N[0], 1e-12):
+                return (f'call {k}: propagate_fft(shape=None, oversample={os_}) reports wavelength {r["full_wl"]!r}, which gives '
+                        f'1/alpha = {inv_alpha!r}, but its grid is {N}')
         shape = st['shape']
         too_large = shape is not None and (shape[0] * os_ > N[0] or shape[1] * os_ > N[1])
         if too_large:
@@ -613,7 +785,13 @@ _extra_before_src_layer = extra
 
 def extra(tier, rng):
     from .. import gen_src as G
-    base = _extra_before_src_layer(tier, rng)
+    try:
+        base = _extra_before_src_layer(tier, rng)
+    except Exception as e:          # keep the translation layer's verdict when the other checks cannot even run
+        import traceback
+        base = {'report': {'error': traceback.format_exc()[-800:]},
+                'violations': [{'case': None, 'impl': None,
+                                'what': f'extra: the checks preceding the translation layer raised {type(e).__name__}: {e}'}]}
     layer = G.run_layer('C09', ID, tier, rng, C)
     report = dict(base.get('report', {}))
     report['source_translation'] = layer['report']
